@@ -37,6 +37,17 @@ CLAIMED["C07"] = (
     "Trusted: Lean kernel; standard axioms; correspondence harness; astropy composition and ModelBoundingBox.validate (modelled).",
     "Lean 4 refinement proofs over hand-written model + history correspondence + reference-list oracle", "DESIGN.md §6 C07")
 
+CLAIMED["C08"] = (
+    "Lean 4 theorems over an abstract pipeline type: the only query-dependent state (the memoised initial guess of the iterative inverse) is "
+    "coherent with the current pipeline after any interleaving of queries, accepted edits and rejected edits (invariant by induction over "
+    "histories), hence every answer equals a fresh twin's answer; queries change neither pipeline nor edit count; a witness shows the "
+    "statement fails without invalidation on edit (the D5 defect, fixed). Tied to gwcs by (a) comparing every answer of generated histories "
+    "with a fresh twin and snapshotting pipeline/box/shape/parameters/caller arguments around every query, (b) comparing the memo's "
+    "bookkeeping (edit count at which _calc_approx_inv ran) with the model after every event.",
+    "Trusted: Lean kernel; standard axioms; harness. Known finding D19 (astropy Identity.inverse clears the box of a bare Identity first step). "
+    "Not modelled: user code mutating transform parameters in place.",
+    "Lean 4 invariant proof over hand-written state machine + fresh-twin differential oracle", "DESIGN.md §6 C08")
+
 NOT_YET = "check not built yet in this round; will be claimed once its Lean model, theorems and correspondence run green"
 
 
